@@ -509,6 +509,15 @@ class BlobWorld:
         return out, leftovers
 
     def check_disk(self, where):
+        # An uncommitted blob file is the state of its Blob object and goes away with it (weak-reference clean-up).  A new
+        # blob that was disowned by an abort keeps its state while the application still holds it: only files that
+        # survive the release of everything the aborted transaction held are leftovers.
+        import gc
+        try:
+            self.c.cacheMinimize()
+        except Exception:
+            pass
+        gc.collect()
         files, leftovers = self.blob_files()
         want = {}
         for name, rs in self.revs.items():
@@ -914,6 +923,8 @@ def h_undo_fault(f: int, w2: bool, kind: str) -> None:
 
 
 _FIRST = ['new', 'rewrite0', 'append0', 'consume0', 'savepoint', 'fail_commit>', 'fail_vote>', 'undo', 'pack']
+# first steps that are applicable right after the initial commit (a shard whose first step never applies would be vacuous)
+_FIRST_OK = [c_ for c_ in CODES if c_ not in ('rollback', 'pack_mid')]
 HARNESSES = [
     Harness('program', h_program,
             decides='after every step of any blob program: committed *.blob files == committed blob revisions (bytes identical, never '
@@ -929,8 +940,9 @@ HARNESSES = [
                   'BlobStorage.tpc_abort/tpc_finish/undo/pack', 'Connection._store_objects (blobs)', 'TmpStore.storeBlob/loadBlob'],
             quick=dict(timeout=200, shards=shards(n=[2], kind=['file', 'mapping', 'proxy'], other=[True], first=['any'])
                        + shards(n=[3], kind=['file'], other=[False], first=_FIRST) + shards(n=[3], kind=['proxy'], other=[False], first=['undo', 'rewrite0'])),
-            thorough=dict(timeout=3000, shards=shards(n=[3], kind=['file', 'mapping', 'proxy'], other=[True, False], first=CODES)
-                          + shards(n=[4], kind=['file'], other=[True], first=CODES))),
+            thorough=dict(timeout=3000, shards=shards(n=[3], kind=['file', 'proxy'], other=[True, False], first=_FIRST_OK)
+                          + shards(n=[3], kind=['mapping'], other=[True, False], first=[c_ for c_ in _FIRST_OK if c_ != 'undo'])
+                          + shards(n=[4], kind=['file'], other=[True], first=_FIRST_OK))),
     Harness('directed_sp', h_directed_sp,
             decides='blob writes around savepoints: after rolling back to the first savepoint (also with a later savepoint taken in '
                     'between) the blob reads the savepoint bytes; commit stores exactly the final bytes, abort discards all',
